@@ -1,12 +1,14 @@
 SPECIFICATION ESpec
 CONSTANTS
-  Plain = {1, 2, 3, 4}
+  Plain = {p1, p2, p3, p4}
   Limit = 2
-  MaxId = 10
+  MaxId = 12
   MaxJobs = 2
+  MaxCrash = 1
   Forge = {}
   TamperOn = FALSE
   Deviations = {}
+SYMMETRY PlainSym
 INVARIANTS ETypeOK Recoverable IndexRight IndexBackedByMeta FetchSound AckedFetchable
 PROPERTIES DeleteOnlyCovered
 CHECK_DEADLOCK FALSE
